@@ -84,7 +84,8 @@ namespace detail {
             core.L = f.clock;
             f.clock.c[f.id]++;
         }
-        bool timed_lock(bool positive) {
+        bool timed_lock(long long ns) {
+            bool positive = ns > 0;
             if (!::vrt::rt().cur) return true;
             if (!positive) return try_lock();
             ::vrt::check_live_addr(this, "mutex::try_lock_for");
@@ -98,6 +99,7 @@ namespace detail {
             f.pend = ::vrt::P_NONE; f.timed = false;
             if (core.can_acquire_excl()) { acquire_excl(); return true; }
             f.timed_failures++;
+            if (ns < (1LL << 60)) f.waited_ns += ns;       // a wait that gives up has consumed its whole duration of virtual time
             return false;
         }
         // shared side
@@ -136,7 +138,8 @@ namespace detail {
             core.Lr.join(f.clock);
             f.clock.c[f.id]++;
         }
-        bool timed_lock_shared(bool positive) {
+        bool timed_lock_shared(long long ns) {
+            bool positive = ns > 0;
             if (!::vrt::rt().cur) return true;
             if (!positive) return try_lock_shared();
             ::vrt::check_live_addr(this, "mutex::try_lock_shared_for");
@@ -150,11 +153,17 @@ namespace detail {
             f.pend = ::vrt::P_NONE; f.timed = false;
             if (core.can_acquire_shared()) { acquire_shared(); return true; }
             f.timed_failures++;
+            if (ns < (1LL << 60)) f.waited_ns += ns;
             return false;
         }
     };
     template<class Rep, class Period>
-    inline bool positive(const ::std::chrono::duration<Rep, Period>& d) { return d > d.zero(); }
+    inline long long positive(const ::std::chrono::duration<Rep, Period>& d) {      // duration in ns (0 or negative: plain try)
+        if (!(d > d.zero())) return 0;
+        auto ns = ::std::chrono::duration_cast<::std::chrono::nanoseconds>(d).count();
+        return ns > 0 ? (long long)ns : 1;
+    }
+    constexpr long long UNTIL = 1LL << 61;        // absolute deadlines: duration unknown to the model
 }  // namespace detail
 
 struct mutex : private detail::base_mutex {
@@ -165,7 +174,7 @@ struct mutex : private detail::base_mutex {
 struct timed_mutex : private detail::base_mutex {
     using detail::base_mutex::lock; using detail::base_mutex::try_lock; using detail::base_mutex::unlock;
     template<class R, class P> bool try_lock_for(const ::std::chrono::duration<R, P>& d) { return timed_lock(detail::positive(d)); }
-    template<class C, class D> bool try_lock_until(const ::std::chrono::time_point<C, D>&) { return timed_lock(true); }
+    template<class C, class D> bool try_lock_until(const ::std::chrono::time_point<C, D>&) { return timed_lock(detail::UNTIL); }
     const ::vrt::MutexCore& vrt_core() const { return core; }
 };
 struct shared_mutex : private detail::base_mutex {
@@ -177,9 +186,9 @@ struct shared_timed_mutex : private detail::base_mutex {
     using detail::base_mutex::lock; using detail::base_mutex::try_lock; using detail::base_mutex::unlock;
     using detail::base_mutex::lock_shared; using detail::base_mutex::try_lock_shared; using detail::base_mutex::unlock_shared;
     template<class R, class P> bool try_lock_for(const ::std::chrono::duration<R, P>& d) { return timed_lock(detail::positive(d)); }
-    template<class C, class D> bool try_lock_until(const ::std::chrono::time_point<C, D>&) { return timed_lock(true); }
+    template<class C, class D> bool try_lock_until(const ::std::chrono::time_point<C, D>&) { return timed_lock(detail::UNTIL); }
     template<class R, class P> bool try_lock_shared_for(const ::std::chrono::duration<R, P>& d) { return timed_lock_shared(detail::positive(d)); }
-    template<class C, class D> bool try_lock_shared_until(const ::std::chrono::time_point<C, D>&) { return timed_lock_shared(true); }
+    template<class C, class D> bool try_lock_shared_until(const ::std::chrono::time_point<C, D>&) { return timed_lock_shared(detail::UNTIL); }
     const ::vrt::MutexCore& vrt_core() const { return core; }
 };
 
